@@ -449,9 +449,41 @@ class Check(Property):
         return c["kind"] + ":" + str(c.get("s"))
 
     # ------------------------------------------------------------------ oracle
+    def define_path_probe(self):
+        """the same definitions arriving through define() instead of the file: the default group holds the units that no @group
+        block defines (recorded as a known finding: a unit defined later joins the group `root` only)"""
+        import pint
+        v = []
+        lines = ["metre = [length] = m", "second = [time] = s", "@group G1", "    inchy = 0.0254 * metre", "@end",
+                 "@system S1 using G1", "@end", "@defaults", "    group = GD", "    system = S1", "@end"]
+        late = "smooty = 1.7018 * metre"
+        try:
+            with tempfile.TemporaryDirectory(prefix="c10_dp_") as d:
+                f1, f2 = os.path.join(d, "with.txt"), os.path.join(d, "without.txt")
+                open(f1, "w").write("\n".join(lines[:2] + [late] + lines[2:]) + "\n")
+                open(f2, "w").write("\n".join(lines) + "\n")
+                a = pint.UnitRegistry(f1, non_int_type=Fraction, cache_folder=None)
+                b = pint.UnitRegistry(f2, non_int_type=Fraction, cache_folder=None)
+                b.define(late)
+            for q in ("GD members", "compatible units of metre"):
+                def ans(r):
+                    if q == "GD members":
+                        return sorted(x for x in r.get_group("GD", False).members if not x.startswith("delta_"))
+                    return sorted(str(x) for x in r.get_compatible_units("metre"))
+                ga, gb = ans(a), ans(b)
+                if ga != gb:
+                    v.append(f"C10 [known finding F74] {q}: {ga} when the line `{late}` stands in the file, {gb} when it arrives "
+                             f"through define() after the file was loaded")
+        except Exception as exc:  # noqa: BLE001
+            v.append(f"C10 define-path probe raised {type(exc).__name__}: {exc}")
+        return v
+
     def oracle(self, c):
         import pint
         v = []
+        if not getattr(self, "_define_probe_done", False):
+            self._define_probe_done = True
+            v += self.define_path_probe()
         if c["kind"] == "pkey":
             # a prefix of the bundled files, as the independent reader sees its line: name, value, symbol ("_" = none), aliases
             P = regs.pools()
@@ -577,6 +609,10 @@ class Check(Property):
                                      f"{sorted(got)}, the units outside every @group block are {sorted(want)}")
                     except Exception as exc:  # noqa: BLE001
                         v.append(f"C10 file {c['file']} [{c['variant']}] default group: raised {type(exc).__name__}: {exc}")
+                if proj.defaults.get("system") and c["variant"] in ("file", "cache-cold", "cache-warm"):
+                    if u.default_system != proj.defaults["system"]:
+                        v.append(f"C10 file {c['file']} [{c['variant']}] default system is {u.default_system!r}, the @defaults block says "
+                                 f"{proj.defaults['system']!r}")
                 for g in proj.groups:
                     want = {b["name"] for b in g["body"] if b["kind"] == "unit"}
                     for used in g["using"]:
